@@ -115,15 +115,26 @@ def run(case):
     imgs = [da.from_array(A, chunks=int(rng.choice([7, 16, 64]))) if (p["dask"] and not (mixed and rng.random() < 0.5))
             else A for A in tomos]
 
+    preload = bool(rng.random() < 0.5)       # use the loader before it is binned
     if p["kind"] == "single":
         loader = SubtomogramLoader(imgs[0], moles[0], order=order, scale=scale, output_shape=(S,) * 3,
                                    corner_safe=p.get("corner_safe", False))
+        if preload:
+            _ = np.asarray(loader.asnumpy()), np.asarray(loader.filter(pl.col("uid") >= 0).average())
+            case.count("loaded_before_binning")
         binned = loader.binning(b, compute=p["compute"])
         b_images = [binned.image]
     else:
         loader = BatchLoader(order=order, scale=scale, output_shape=(S,) * 3, corner_safe=p.get("corner_safe", False))
-        for im, mo in zip(imgs, moles):
-            loader.add_tomogram(im, mo)
+        empty_first = bool(rng.random() < 0.3)
+        if empty_first:
+            # a tomogram without molecules registered before the others
+            loader.add_tomogram(np.full((b * 4, b * 4, b * 4), 7.0, np.float32), Molecules.empty(["uid"]), image_id=99)
+            case.count("batch_with_empty_tomogram")
+        for kk_, (im, mo) in enumerate(zip(imgs, moles)):
+            loader.add_tomogram(im, mo, image_id=kk_)
+        if preload:
+            _ = np.asarray(loader.asnumpy())
         try:
             binned = loader.binning(b, compute=p["compute"])
         except Exception as e:
